@@ -31,7 +31,7 @@ func (c03) Assumptions() []string {
 
 func c03Corpus(env run.Env) corpus {
 	if env.Thorough {
-		return newCorpus("C03", wfDomain, 40, 300000)
+		return newCorpus("C03", wfDomain, 120, 1500000)
 	}
 	return newCorpus("C03", wfDomain, 4, 16000)
 }
